@@ -596,6 +596,29 @@ theorem resolveClassRefAsMulticlass_specV (hr : RecOK r k) (h : PostV c0 c) (hn 
   · exact Holds.pure (hnone h)
 
 
+theorem namesClassOnly_spec (h : PostV c0 c) (hn : Fits (k + 1) c0 n) :
+    Holds (namesClassOnly n) c (fun _ c' => c = c') := by
+  unfold namesClassOnly
+  split
+  · rename_i nm hnm
+    refine Holds.bind (utilsIdentifier_spec h.toPost (hn.sub (Ast.child_sub hnm))) ?_
+    rintro x c' ⟨hcc, _⟩
+    subst hcc
+    split
+    · exact Holds.withSM rfl
+    · exact Holds.pure rfl
+  · exact Holds.pure rfl
+
+theorem defmMulticlassParent_specV (hr : RecOK r k) (h : PostV c0 c) (hn : Fits (k + 1) c0 n) (defmId : Nat) :
+    Holds (defmMulticlassParent r defmId n) c (fun _ c' => PostV c0 c') := by
+  unfold defmMulticlassParent
+  refine Holds.bind (resolveClassRefAsMulticlass_specV hr h hn) ?_
+  rintro x c2 ⟨h2, hx⟩
+  split
+  · rename_i pid
+    exact Holds.postV' h2 (defmMut_pushParent_step h2.inv defmId (hx pid rfl))
+  · exact Holds.pure h2
+
 theorem indexParentClassList_specV (hr : RecOK r k) (h : PostV c0 c) (hn : Fits (k + 1) c0 n)
     (hk : HasKind isRecMcDefmKind c0) :
     Holds (indexParentClassList r n) c (fun _ c' => PostV c0 c') := by
@@ -651,16 +674,26 @@ theorem indexParentClassList_specV (hr : RecOK r k) (h : PostV c0 c) (hn : Fits 
       rintro did _ ⟨rfl, hdid⟩
       split
       · rename_i defmId
-        refine Holds.bind (Holds.forIn_mem (fun _ c' => PostV c c') h ?_) (fun _ c' h' => Holds.pure ⟨h', trivial⟩)
-        intro cr hcr b c1 h1
-        refine Holds.bind (resolveClassRefAsMulticlass_specV hr h1 (hn.sub' (Ast.children_sub hcr))) ?_
-        rintro x c2 ⟨h2, hx⟩
         split
-        · rename_i pid
-          refine Holds.bind (Holds.postV' h2 (defmMut_pushParent_step h2.inv defmId (hx pid rfl))) ?_
-          intro _ c3 h3
-          exact Holds.pure h3
-        · exact Holds.pure h2
+        · exact Holds.pure ⟨h, trivial⟩
+        · rename_i first rest hcl
+          have hfirst : first ∈ Ast.parentClassListClasses n := by rw [hcl]; simp
+          have hrest : ∀ x ∈ rest, x ∈ Ast.parentClassListClasses n := fun x hx => by rw [hcl]; simp [hx]
+          refine Holds.bind (defmMulticlassParent_specV hr h (hn.sub' (Ast.children_sub hfirst)) defmId) ?_
+          intro _ c1 h1
+          refine Holds.bind (Holds.forIn_mem (fun _ c' => PostV c c') h1 ?_) (fun _ c' h' => Holds.pure ⟨h', trivial⟩)
+          intro cr hcr b c2 h2
+          have hcrn := hn.sub' (Ast.children_sub (hrest cr hcr))
+          refine Holds.bind (namesClassOnly_spec h2 hcrn) ?_
+          rintro b' c' hcc
+          subst hcc
+          split
+          · refine Holds.bind (resolveClassRefAsClass_specV hr h2 hcrn) ?_
+            rintro x c3 ⟨h3, _⟩
+            exact Holds.pure h3
+          · refine Holds.bind (defmMulticlassParent_specV hr h2 hcrn defmId) ?_
+            intro _ c3 h3
+            exact Holds.pure h3
       · rename_i hnone3
         exfalso
         obtain ⟨id, hid⟩ := hk.recMcDefm_some hr0 hm0
